@@ -22,12 +22,12 @@ for g in sorted(os.listdir(OCAML)):
             log("[setup] ocaml driver %s ok" % g)
         except Exception as e:  # noqa: BLE001
             log("[setup] ocaml driver %s FAILED: %s" % (g, str(e)[-1500:]))
-if not os.path.exists(os.path.join(HARNESS, "Cargo.lock")):
-    import shutil
-    shutil.copy("/repo/Cargo.lock", os.path.join(HARNESS, "Cargo.lock"))
-t1 = time.time()
-rc, out = sh(["cargo", "build", "--release", "--offline", "--workspace", "--keep-going"], cwd=HARNESS, timeout=7200)
-log("[setup] cargo build rc=%d (%.0fs)" % (rc, time.time() - t1))
-if rc != 0:
-    log(out[-3000:])
+for h in sorted(os.listdir(HARNESS)):
+    if os.path.exists(os.path.join(HARNESS, h, "Cargo.toml")):
+        t1 = time.time()
+        try:
+            common.build_harness(h, timeout=3600)
+            log("[setup] harness %s ok (%.0fs)" % (h, time.time() - t1))
+        except Exception as e:  # noqa: BLE001
+            log("[setup] harness %s FAILED: %s" % (h, str(e)[-2000:]))
 log("[setup] done in %.0fs" % (time.time() - t0))
